@@ -284,6 +284,18 @@ func c13RunOnce(ops []WOp, level int, calls []int, probe bool, choices []bool, k
 	}
 	faultFlavour = (level+len(calls)+nf)%6 - 1
 	defer func() { faultFlavour = -1 }()
+	if (level+2*len(calls)+len(ops)+nf)%3 == 0 { // in a third of the runs every other destination misreports its count
+		successSkew = func(w int, n int) int {
+			if w%2 == 0 {
+				return -1
+			}
+			if w%3 == 0 {
+				return 2
+			}
+			return 0
+		}
+		defer func() { successSkew = nil }()
+	}
 	inCall := 0
 	scheduled := true
 	var fails []bool
